@@ -2,7 +2,7 @@
 (with the linear solver replaced by a recorder that returns a scripted vector) against Implicit.v / StepSolvers.v."""
 import sys
 
-sys.path.insert(0, "/repo")
+sys.path.insert(0, __import__("os").environ.get("VERIF_REPO", "/repo"))
 import numpy as np
 
 from ..common import cq, cb, cn, clist, cvec, cmat, copt
